@@ -147,6 +147,30 @@ class Build:
                             'vf_miter_switch(); B_vf_init_globals(); B_%s(); if (vf_exc_pending) VF_FAIL(7, "exception escaped the harness entry"); vf_miter_end(); }\n' % (e, e, e))
             self.info = ia
             self.info['miter_second'] = ib
+            # two native builds (configuration A and B) for replaying a reported divergence: same input stream, transcripts compared
+            ent = os.path.join(self.dir, 'entries.c')
+            with open(ent, 'w') as f:
+                for e in self.entries: f.write('extern void %s(void);\n' % e)
+                f.write('struct vf_entry { const char *name; void (*fn)(void); };\nstruct vf_entry vf_entries[] = {')
+                f.write(', '.join('{"%s", %s}' % (e, e) for e in self.entries)); f.write(', {0, 0}};\n')
+            run(['gcc', '-c', '-O1', '-DCXX_SIDE', os.path.join(ENGINE, 'vf_native.c'), '-o', os.path.join(self.dir, 'nat_cxx.o')], timeout=120)
+            run(['gcc', '-c', '-O1', ent, '-o', os.path.join(self.dir, 'entries.o')], timeout=120)
+            self.bin_A = os.path.join(self.dir, 'native_A'); self.bin_B = os.path.join(self.dir, 'native_B')
+            for binp, cfg in ((self.bin_A, {}), (self.bin_B, self.miter)):
+                r = run(['g++'] + self.cxxflags(**cfg) + ['-w', os.path.join(HARNESS, self.src), os.path.join(self.dir, 'nat_cxx.o'), os.path.join(self.dir, 'entries.o'), '-o', binp], timeout=600)
+                if r['rc'] != 0: raise BuildError('native miter build failed: ' + r['err'][-2000:])
+            self.bin_cxx = self.bin_c = None
+            self.diff = dict(streams=0, agree=0, passes=0, n_mismatch=0, n_native_defect=0, mismatches=[], native_defects=[], reach={})
+            # sanity: both native configurations produce the same transcript on pseudo-random streams
+            agree = 0
+            for e in self.entries:
+                for i in range(validate_seeds):
+                    sd = seed * 1000003 + i * 7919 + 1
+                    ra = run([self.bin_A, e, str(sd)], timeout=20); rb = run([self.bin_B, e, str(sd)], timeout=20)
+                    if ra['out'] == rb['out']: agree += 1
+                    else: self.diff['native_defects'].append((e, sd, 'transcripts differ natively'))
+            self.diff['streams'] = validate_seeds * len(self.entries); self.diff['agree'] = agree
+            self.diff['n_native_defect'] = len(self.diff['native_defects'])
             self.t_build = time.time() - t0
             self.done = True
             return
@@ -179,6 +203,15 @@ class Build:
         self.done = True
 
     def native(self, binary, entry, seed=0, replay=None, timeout=20):
+        if self.miter:
+            env = dict(os.environ)
+            if replay is not None: env['VF_REPLAY'] = ' '.join(str(x) for x in replay)
+            ra = run([self.bin_A, entry, str(seed)], timeout=timeout, env=env); rb = run([self.bin_B, entry, str(seed)], timeout=timeout, env=env)
+            oa = [l for l in ra['out'].splitlines() if l.startswith('OBS') or l.startswith('ASSERT')]
+            ob = [l for l in rb['out'].splitlines() if l.startswith('OBS') or l.startswith('ASSERT')]
+            if ra['rc'] == 77 and rb['rc'] == 77: return 'REJECT', [], ra
+            if oa != ob or ra['rc'] != rb['rc']: return 'ASSERT 16003', [], ra
+            return 'PASS', [], ra
         env = dict(os.environ)
         env['ASAN_OPTIONS'] = 'detect_leaks=1:abort_on_error=0:exitcode=9'
         env['UBSAN_OPTIONS'] = 'halt_on_error=1:exitcode=9'
@@ -248,6 +281,8 @@ def parse_cbmc_json(text):
             if m: stats['solver_s'] = stats.get('solver_s', 0) + float(m.group(1))
             m = re.search(r'size of program expression: (\d+) steps', t)
             if m: stats['program_steps'] = int(m.group(1))
+            m = re.search(r'Generated (\d+) VCC\(s\), (\d+) remaining after simplification', t)
+            if m: stats['vccs'] = int(m.group(1)); stats['vccs_remaining'] = int(m.group(2))
         if 'cProverStatus' in item: stats['status'] = item['cProverStatus']
     return results, stats, '\n'.join(msgs[-15:])
 
@@ -318,7 +353,7 @@ def _decide(b, q, hints, unwind_cap=300):
         attempts += 1
         left = q.timeout - (time.time() - t0)
         if left <= 5: return dict(verdict='inconclusive', reason='timeout', wall=time.time() - t0, attempts=attempts, unwindset=unwindset)
-        r = run(['/usr/bin/time', '-f', 'VF_RSS %M'] + cbmc_cmd(b, q, unwindset), timeout=left, mem_gb=q.mem_gb)
+        r = run(['/usr/bin/time', '-f', 'VF_RSS %M'] + cbmc_cmd(b, q, unwindset), timeout=left, mem_gb=max(2.5 * q.mem_gb, 8))   # address-space cap well above the expected RSS used for scheduling
         m = re.search(r'VF_RSS (\d+)', r['err'])
         if m: peak = max(peak, int(m.group(1)) // 1024)
         if r['timeout']: return dict(verdict='inconclusive', reason='timeout', wall=time.time() - t0, attempts=attempts, unwindset=unwindset, rss_mb=peak)
@@ -537,6 +572,12 @@ class Checker:
                 if not ok: bound.append('unwinding bound reached at cap: ' + p['property'])
             else:
                 if not ok: failed.append(dict(kind='generic', what=c[1], prop=p['property']))
+        if 'stores' in q.hooks:
+            # static IR fact (graph search over the emitted functions, not a solver verdict): the lowered library code
+            # references no mutable global / function-local static (harness ledgers live in namespace vf or are file-static g_*)
+            libg = [g for g in b.info.get('mutable_globals', []) if not re.match(r'(_ZL\d+g_|_ZN2vfL|_ZZ\d*h_)', g)]
+            row['library_mutable_globals'] = libg
+            if libg: failed.append(dict(kind='static', what='library code references mutable globals: %s' % libg[:4], prop='static'))
         for aid, a in sorted(asserts.items()):
             if a['failed']:
                 if aid // 1000 == 99: bound.append('harness bound assertion %d' % aid)
@@ -571,6 +612,8 @@ class Checker:
             rel = [f for f in failed if f['relevant']]
             rel.sort(key=lambda f: 0 if f['kind'] == 'assert' else 1)
             for f in rel[:4]:
+                if f['kind'] == 'static':
+                    f['replay'] = 'CRASH static-fact'; f['values'] = []; continue
                 vals = get_trace(b, q, d['unwindset'], f['prop'])
                 f['values'] = vals
                 if vals is None:
@@ -632,8 +675,13 @@ class Checker:
                                 symbolic_variables=r.get('symbolic'), bounds=r.get('bounds'), unwindset=r.get('unwindset'),
                                 cbmc_properties=r.get('cbmc_properties'), assertions_by_id=r.get('asserts'), reach_markers=r.get('reach'),
                                 verdict=r.get('verdict'), reason=r.get('reason'), solver=r.get('stats'), wall_s=r.get('wall'), rss_mb=r.get('rss_mb')))
-        ev = dict(property_id=self.pid, tier=self.tier, seed=self.seed, level='model_checking',
+        ev = dict(property_id=self.pid, tier=self.tier, seed=self.seed, level='translation_validation' if self.pid == 'C16' else 'model_checking',
                   coverage=dict(
+                      # symbolic states: SSA steps of the unrolled programs CBMC executed symbolically; transitions: verification
+                      # conditions generated from them (each one a solver obligation over all values of the symbolic variables)
+                      states=max(1, sum((r.get('stats') or {}).get('program_steps', 0) for r in decided)),
+                      transitions=max(1, sum((r.get('stats') or {}).get('vccs', 0) for r in decided)),
+                      programs=len(decided), disagreements_checked=len(viol) + len(unconfirmed),
                       evaluations=len(self.rows), distinct_nontrivial=len(nontrivial),
                       rule='one evaluation = one CBMC query (harness entry x configuration x state class) over symbolic state words, element values, positions, counts; non-trivial = decided, every reach marker reachable (vacuity witness), at least one assertion of this property discharged',
                       samples=samples,
